@@ -199,8 +199,9 @@ class Rejection(Sampler):
             dtype = nbatch.dtype
 
             if node == self.discrepancy_name:
-                # Initialize the distances to inf
-                samples[node] = np.ones(shape, dtype=dtype) * np.inf
+                # Initialize the distances to nan: rows that have not been filled yet are sorted
+                # after every simulated row, also after those with an infinite distance
+                samples[node] = np.ones(shape, dtype=dtype) * np.nan
             else:
                 samples[node] = np.empty(shape, dtype=dtype)
 
